@@ -1,11 +1,19 @@
 import MidnightZK.Model.Common
 import MidnightZK.Model.C18.In
-import MidnightZK.Model.C18.Bin
+import MidnightZK.Model.C18.BinDec
+import MidnightZK.Model.C18.Json
+import MidnightZK.Gen.C18Serde
 /-! Line-protocol handler of property C18.
 
 Request: `run <instr>... | <name>=<value>... | <hash-table>...`
-Answer:  `load:.. | trace:.. | off:.. | cmp:.. | pi:.. | mock:.. | bin:..`
-(the same sections the harness `h-c18` prints for the real implementation). -/
+Answer:  `load:.. | trace:.. | off:.. | cmp:.. | pi:.. | mock:.. | bin:.. | json:..`
+(the same sections the harness `h-c18` prints for the real implementation).
+
+Request: `dec <size_of Instruction> <size_of String> <hex bytes>` (`read_relation` on bytes)
+Answer:  `ok rest=<unread> canon=<0|1> <program>` | `err:<class>`
+
+Request: `json <tree tokens>` (`ZkirRelation::read` on the JSON text of the tree)
+Answer:  `ok <program>` | `err:<class>` -/
 namespace MidnightZK.C18.Driver
 open MidnightZK MidnightZK.C18
 
@@ -201,6 +209,126 @@ def mockVerdict (H : Hashes) (p : Program) (w : Witness) (given : List Nat) : St
   | .error e => if e.isPanic then "panic" else "err:" ++ fmtErr e
   | .ok st => if st.sat && piMatch st.pis given then "sat" else "unsat"
 
+/-! ## Serialisation requests -/
+
+/-- A name as the hex of its UTF-8 bytes, prefixed by `x` (decoded names are arbitrary strings). -/
+def fmtNameHex (n : String) : String := "x" ++ hexBytes (strBytes n)
+
+def fmtOp : Op → String
+  | .load t => "load." ++ fmtTy t
+  | .publish => "publish"
+  | .assertEq => "assert_eq"
+  | .assertNe => "assert_ne"
+  | .isEq => "is_eq"
+  | .add => "add"
+  | .sub => "sub"
+  | .mul => "mul"
+  | .neg => "neg"
+  | .modExp n => s!"mod_exp.{n}"
+  | .innerProduct => "inner_product"
+  | .affine => "affine"
+  | .intoBytes n => s!"into_bytes.{n}"
+  | .fromBytes t => "from_bytes." ++ fmtTy t
+  | .poseidon => "poseidon"
+  | .sha256 => "sha256"
+  | .sha512 => "sha512"
+
+def fmtInstrHex (i : Instr) : String :=
+  fmtOp i.op ++ ";" ++ joinWith "," (i.ins.map fmtNameHex) ++ ";" ++ joinWith "," (i.outs.map fmtNameHex)
+
+def fmtProgHex (p : Program) : String := joinWith " " (s!"n={p.length}" :: p.map fmtInstrHex)
+
+def fmtDErr : DErr → String
+  | .eof => "eof" | .varint => "varint" | .tag => "tag" | .utf8 => "utf8" | .limit => "limit"
+  | .nonMinimal => "non-minimal"
+
+/-- `dec`: the real decoder's verdict, the decoded program, the number of unread bytes, and
+whether the strict decoder accepts the same input (= the consumed bytes are the canonical
+encoding of the decoded program). -/
+def answerDec (sizeInstr sizeString : Nat) (bs : List Nat) : String :=
+  let P : BParams := ⟨sizeInstr, sizeString, Gen.programDecodingLimit⟩
+  match readRelation P bs with
+  | .error (.decode e) => "err:" ++ fmtDErr e
+  | .error (.load e) => "err:load:" ++ fmtErr e
+  | .ok (p, rest) =>
+    let canon := match decodeBinPrefix true P bs with
+      | .ok _ => "1"
+      | .error _ => "0"
+    s!"ok rest={rest.length} canon={canon} " ++ fmtProgHex p
+
+/-- JSON tree tokens: `z` null, `t` / `f` booleans, `n<int>` integer, `d` other number,
+`s<hex>` string, `[ .. ]` array, `{ k<hex> value .. }` object. -/
+partial def parseJson (toks : List String) : Option (Json × List String) :=
+  match toks with
+  | [] => none
+  | "z" :: r => some (.null, r)
+  | "t" :: r => some (.bool true, r)
+  | "f" :: r => some (.bool false, r)
+  | "d" :: r => some (.float, r)
+  | "[" :: r => arr r []
+  | "{" :: r => obj r []
+  | t :: r =>
+    if t.startsWith "n" then (t.drop 1).toString.toInt?.map (fun n => (.num n, r))
+    else if t.startsWith "s" then
+      ((parseHexBytes? (t.drop 1).toString).bind bytesStr?).map (fun s => (.str s, r))
+    else none
+where
+  arr (toks : List String) (acc : List Json) : Option (Json × List String) :=
+    match toks with
+    | "]" :: r => some (.arr acc.reverse, r)
+    | _ => match parseJson toks with
+      | some (j, r) => arr r (j :: acc)
+      | none => none
+  obj (toks : List String) (acc : List (String × Json)) : Option (Json × List String) :=
+    match toks with
+    | "}" :: r => some (.obj acc.reverse, r)
+    | k :: r =>
+      if k.startsWith "k" then
+        match (parseHexBytes? (k.drop 1).toString).bind bytesStr? with
+        | some key => match parseJson r with
+          | some (j, r2) => obj r2 ((key, j) :: acc)
+          | none => none
+        | none => none
+      else none
+    | [] => none
+
+def fmtJErr : JErr → String
+  | .missingField f => "missing-field:" ++ f
+  | .duplicateField f => "duplicate-field:" ++ f
+  | .unknownVariant _ => "unknown-variant"
+  | .invalidType => "invalid-type"
+  | .invalidValue => "invalid-value"
+  | .invalidLength => "invalid-length"
+  | .syntax => "syntax"
+
+/-- `json`: `ZkirRelation::read` = `serde_json::from_str::<Program>` then `from_instructions`. -/
+def answerJson (j : Json) : String :=
+  match fromJson j with
+  | .error e => "err:" ++ fmtJErr e
+  | .ok p =>
+    match loadProgram p with
+    | .error e => "err:load:" ++ fmtErr e
+    | .ok () => "ok " ++ fmtProgHex p
+
+/-- serde_json's string escaping (`ser.rs: format_escaped_str`). -/
+def jsonEscape (s : String) : String :=
+  String.join (s.toList.map (fun c =>
+    if c = '"' then "\\\"" else if c = '\\' then "\\\\"
+    else if c = '\n' then "\\n" else if c = '\r' then "\\r" else if c = '\t' then "\\t"
+    else if c.toNat = 8 then "\\b" else if c.toNat = 12 then "\\f"
+    else if c.toNat < 32 then "\\u00" ++ hex2 c.toNat
+    else c.toString))
+
+/-- Compact JSON text (`serde_json::to_string`). -/
+partial def jsonText : Json → String
+  | .null => "null"
+  | .bool b => if b then "true" else "false"
+  | .num n => toString n
+  | .float => "0.5"
+  | .str s => "\"" ++ jsonEscape s ++ "\""
+  | .arr l => "[" ++ joinWith "," (l.map jsonText) ++ "]"
+  | .obj kvs => "{" ++ joinWith "," (kvs.map (fun (k, v) => "\"" ++ jsonEscape k ++ "\":" ++ jsonText v)) ++ "}"
+
 def answerRun (withMock : Bool) (r : Request) : String :=
   let H := mkHashes r.hashes
   match loadProgram r.prog with
@@ -231,7 +359,8 @@ def answerRun (withMock : Bool) (r : Request) : String :=
         | .error (k, _), _ => "np:" ++ mockVerdict H (stripPublish (r.prog.take (k + 1))) r.wit []
         | _, _ => "-"
     joinWith " | " ["load:ok", "trace:" ++ joinWith " " trace, "off:" ++ offS, "cmp:" ++ cmpS,
-      "pi:" ++ piS, "mock:" ++ mockS, "bin:" ++ hexBytes (encodeBin r.prog)]
+      "pi:" ++ piS, "mock:" ++ mockS, "bin:" ++ hexBytes (encodeBin r.prog),
+      "json:" ++ jsonText (toJson r.prog)]
 
 def answer (line : String) : String :=
   match words line with
@@ -243,6 +372,14 @@ def answer (line : String) : String :=
     match parseRequest? rest with
     | some r => answerRun false r
     | none => "bad-op"
+  | ["dec", si, ss, h] =>
+    match si.toNat?, ss.toNat?, parseHexBytes? (if h = "-" then "" else h) with
+    | some si, some ss, some bs => answerDec si ss bs
+    | _, _, _ => "bad-op"
+  | "json" :: rest =>
+    match parseJson rest with
+    | some (j, []) => answerJson j
+    | _ => "bad-op"
   | _ => "bad-op"
 
 end MidnightZK.C18.Driver
